@@ -163,6 +163,7 @@ func nonNegative(v ssa.Value, depth int) bool {
 }
 
 func dischargeIndexSSA(p *Prog, in ssa.Instruction) (string, bool) {
+	bcePrig = p
 	if sl, ok := in.(*ssa.Slice); ok {
 		return dischargeSliceSSA(sl)
 	}
@@ -469,9 +470,165 @@ func appendsOneTo(fn *ssa.Function, field string) bool {
 
 // dischargeSliceSSA: S[:h] (or S[l:h] with constant l = 0) where h = len(S) - k for a constant k >= 0 and a dominating
 // condition establishes h >= 0; or S[:k] with a dominating len(S) >= k.
+// boundedByGuards: at instruction `at`, dominating guards establish 0 <= v and v <= len(S) (or v < len(S)).
+func boundedByGuards(v ssa.Value, S ssa.Value, at ssa.Instruction) bool {
+	v = stripNum(v)
+	if k, isK := constInt(v); isK && k == 0 {
+		return true
+	}
+	lower, upper := false, false
+	for _, g := range guardsOf(at.Block()) {
+		c, pol := flattenCond(g.Cond, g.Pol)
+		b, ok := c.(*ssa.BinOp)
+		if !ok {
+			continue
+		}
+		op, x, y := b.Op, b.X, b.Y
+		if !pol {
+			op = negateOp(op)
+		}
+		if stripNum(y) == v && stripNum(x) != v {
+			x, y = y, x
+			op = flipOp(op)
+		}
+		if stripNum(x) != v {
+			continue
+		}
+		if k, isK := constInt(y); isK {
+			if (op == token.GEQ && k >= 0) || (op == token.GTR && k >= -1) {
+				lower = true
+			}
+		}
+		if la := lenArg(y); la != nil && sameSliceAt(S, la, at) {
+			if op == token.LSS || op == token.LEQ {
+				upper = true
+			}
+		}
+	}
+	if !lower {
+		lower = nonNegative(v, 0)
+	}
+	return lower && upper
+}
+
+// sliceBoundFromCallers: the bound is a parameter of an unexported method; at every call site the argument is 0,
+// len(S)-1 tested non-negative, or i+1 for a loop variable that runs from len(S)-1 down to 0 — S being the same field
+// of the receiver handed to the call.  All of these lie between 0 and len(S).
+func sliceBoundFromCallers(p *Prog, sl *ssa.Slice, bound ssa.Value) bool {
+	prm, ok := stripNum(bound).(*ssa.Parameter)
+	if !ok || p == nil {
+		return false
+	}
+	fn := prm.Parent()
+	if fn.Object() != nil && fn.Object().Exported() {
+		return false
+	}
+	ld, isL := isLoad(stripConv(sl.X))
+	if !isL {
+		return false
+	}
+	fa, isFA := ld.(*ssa.FieldAddr)
+	if !isFA || len(fn.Params) == 0 || !sameVar(fa.X, fn.Params[0]) {
+		return false
+	}
+	pi := paramIndex(fn, prm)
+	callers := p.Callers(fn)
+	if len(callers) == 0 || pi < 0 {
+		return false
+	}
+	isLenOfField := func(v ssa.Value, recv ssa.Value) bool {
+		la := lenArg(v)
+		if la == nil {
+			return false
+		}
+		l2, ok := isLoad(stripConv(la))
+		if !ok {
+			return false
+		}
+		f2, ok := l2.(*ssa.FieldAddr)
+		return ok && f2.Field == fa.Field && sameVar(f2.X, recv)
+	}
+	for _, ci := range callers {
+		args := callArgs(ci.Common())
+		if pi >= len(args) {
+			return false
+		}
+		a := stripNum(args[pi])
+		recv := args[0]
+		okArg := false
+		if k, isK := constInt(a); isK && k == 0 {
+			okArg = true
+		}
+		if bo, isB := a.(*ssa.BinOp); isB {
+			k, isK := constInt(bo.Y)
+			switch {
+			case bo.Op == token.SUB && isK && k >= 0 && isLenOfField(bo.X, recv):
+				// len(S)-k, tested non-negative
+				for _, g := range guardsOf(ci.(ssa.Instruction).Block()) {
+					c, pol := flattenCond(g.Cond, g.Pol)
+					cb, ok := c.(*ssa.BinOp)
+					if !ok || stripNum(cb.X) != ssa.Value(bo) {
+						continue
+					}
+					op := cb.Op
+					if !pol {
+						op = negateOp(op)
+					}
+					if z, isZ := constInt(cb.Y); isZ && ((op == token.GEQ && z >= 0) || (op == token.GTR && z >= -1)) {
+						okArg = true
+					}
+				}
+			case bo.Op == token.ADD && isK && k == 1:
+				// i+1 with i := len(S)-1 … 0
+				if ph, isPhi := stripNum(bo.X).(*ssa.Phi); isPhi {
+					fromTop, stepsDown := false, false
+					for _, e := range ph.Edges {
+						if eb, isEB := stripNum(e).(*ssa.BinOp); isEB && eb.Op == token.SUB {
+							if kk, isKK := constInt(eb.Y); isKK && kk == 1 {
+								if isLenOfField(eb.X, recv) {
+									fromTop = true
+								}
+								if stripNum(eb.X) == ssa.Value(ph) {
+									stepsDown = true
+								}
+							}
+						}
+					}
+					okArg = fromTop && stepsDown
+				}
+			}
+		}
+		if !okArg {
+			return false
+		}
+	}
+	return true
+}
+
+var bcePrig *Prog
+
 func dischargeSliceSSA(sl *ssa.Slice) (string, bool) {
 	if sl.Max != nil {
 		return "", false
+	}
+	if bcePrig != nil && (sl.Low == nil || sl.High == nil) && (sl.Low != nil || sl.High != nil) {
+		b := sl.Low
+		if b == nil {
+			b = sl.High
+		}
+		if sliceBoundFromCallers(bcePrig, sl, b) {
+			return "the bound is a parameter of an unexported method and every call site passes 0, len(S)-1 (tested non-negative) or i+1 of a loop that runs from len(S)-1 down to 0", true
+		}
+	}
+	// S[a:] / S[:b] / S[a:b] with each bound tested to lie between 0 and len(S) by dominating guards
+	{
+		okLow := sl.Low == nil || boundedByGuards(sl.Low, sl.X, sl)
+		okHigh := sl.High == nil || boundedByGuards(sl.High, sl.X, sl)
+		if okLow && okHigh && (sl.Low == nil || sl.High == nil) {
+			if sl.Low != nil || sl.High != nil {
+				return "the slice bound is tested against 0 and len(S) by dominating guards", true
+			}
+		}
 	}
 	if sl.Low != nil {
 		if k, ok := constInt(sl.Low); !ok || k != 0 {
